@@ -177,6 +177,13 @@ Proof.
   destruct H2 as [HJ2 Hfacts].
   set (rc := match btxs b with [] => [] | _ :: _ => [WRcpt (bid b)] end).
   assert (Hrc : rc_ok rc). { unfold rc. destruct (btxs b); [left; auto|right; eexists; eauto]. }
+  (* already canonical at or below the head: only the receipts are written *)
+  assert (Hrcw : J (wr rc s2)).
+  { apply J_wr; auto. intros _. destruct HJ2 as [[HD [HB HQ]] _].
+    destruct Hrc as [->|[h ->]]; [split; [split; auto|reflexivity]|].
+    split; [|reflexivity]. split; [apply (DInv_soft_write t g); auto|]. split; [exact HB|].
+    apply (Qd_add t (WRcpt h)); auto. }
+  match goal with |- context [if ?c then (wr rc s2, ENone) else _] => destruct c eqn:Ealr end; [cbn [fst]; exact Hrcw|].
   (* whatever is staged: if it is a good switch the final state satisfies J *)
   assert (Hfin : forall rg,
             (alive s2 -> let d' := apply_write (rc ++ rg ++ map (fun tx => WLook tx (bid b)) (btxs b) ++ stage_head b) (disk_of s2) in
